@@ -1,9 +1,16 @@
 """C10 -- the AArch64 parser recovers every line and operand exactly as written.
 
-Theorems (coq/Props/C10.v): parse_render_line_partial -- parse_line (render lay trail l) = Parsed (denote l) for all
-   written lines of the sub-language and all layouts (lexer lemma lex_render + token-level lemma parse_tokens_line);
-   the full-strength statement refuted with four witness lines; exclusivity of the line kinds; parse_file
-   numbering/text/count.
+Theorems (coq/Props/C10.v): the model is parameterised by the configuration fx = which of the four repairs
+   patches/C10-fix-*.diff the tree contains.  parse_render_line_fx -- parse_line fx (render lay trail l) = Parsed (denote l)
+   for all configurations, all written lines of the configuration's sub-language and all layouts (lexer lemma lex_render +
+   token-level lemma parse_tokens_line); its instances parse_render_line_partial (parser as found) and
+   parse_render_line_full (all repairs: the whole language of the property, any layout); per defect the refutation of the
+   full-strength statement for every configuration lacking the repair (four witness lines) and the positive theorem for
+   every configuration containing it; exclusivity of the line kinds; parse_file numbering/text/count.
+Configuration: run_witnesses replays the witness lines on the implementation; a repair counts as present when all witness
+   lines of its defect are parsed as written (otherwise the known finding is reported).  All correspondence shards hold the
+   model OF THAT CONFIGURATION against the implementation, so a tree whose behaviour is neither that of the unrepaired nor
+   that of the repaired grammar breaks an obligation.
 X: random written syntax trees are rendered with random layouts (Python mirror of the Coq `render`; every
    shard re-checks `render lay tree = line`, well-formedness and `show (denote tree)` in Coq), parsed by the
    real ParserAArch64 and by the model; a malformed stream (token deletions/duplications/swaps) checks
@@ -344,10 +351,11 @@ def run(ctx):
         "the characters of a line are code points < 256 (Coq strings are byte strings)",
     ]
     ctx.assumptions += [
-        "round-trip theorem parse_render_line_spacing: wline_okb false (registers 0-31, <= 5 comma-separated operands, memory operand last, "
-        "condition code not first; excluded and refuted: label with shift-operator prefix after an operand, sxtx, directive comment with a "
-        "comma after an alphabetic parameter), spacing_okb (white space only, non-empty where tokens would fuse), cond_tight (no white space "
-        "directly after a condition code -- refuted otherwise)",
+        "round-trip theorem parse_render_line_spacing at the configuration fx decided on the witness lines: wline_okb fx (registers 0-31, "
+        "<= 5 comma-separated operands, memory operand last, condition code not first, no label spelled exactly like a shift operator after "
+        "an operand; excluded and refuted for a configuration lacking the repair: label with shift-operator prefix after an operand, sxtx, "
+        "directive comment with a comma after an alphabetic parameter), spacing_okb (white space only, non-empty where tokens would fuse), "
+        "cond_tight fx (without the repair: no white space directly after a condition code -- refuted otherwise)",
         "the comment of a directive line and directive parameters are not modelled (kind, name, number and text are)",
     ]
     ctx.ensure_static()
